@@ -15,10 +15,34 @@ use std::net::SocketAddrV4;
 
 /// `blackout`: half way through, every server except one crashes at the same instant (all the peers the survivors know go
 /// silent together); the ordinary churn (crashes of single peers, restarts, lookups) goes on around it.
-pub fn timeline(b: u64, servers: usize, hours: u64, churn: u64, seed: u64, out: &mut Out, blackout: bool) -> u64 {
+/// `busy`: one server keeps OVERLAPPING lookups in flight all the time (a relay / crawler / resolver: a new lookup every
+/// 150 ms while every round trip takes 300..400 ms), so no tick of that node ever starts without an active lookup; maintenance
+/// (ping rounds, eviction of silent peers, refresh) must go on regardless.
+pub fn timeline(b: u64, servers: usize, hours: u64, churn: u64, seed: u64, out: &mut Out, mode: &str) -> u64 {
+    let blackout = mode == "blackout";
+    let busy = mode == "busy";
     let spec = NetSpec { servers, clients: 1, plan: "private".into(), join: "sequential".into(), dead_bootstrap: 0, seed };
     let mut net = build(&spec);
     let mut rng = Rng::new(seed ^ 0x14);
+    let busy_node = if busy { net.servers.get(1).cloned() } else { None };
+    if busy {
+        net.sim.cfg.lat_min_ms = 150;
+        net.sim.cfg.lat_max_ms = 200;
+    }
+    let mut busy_rng = Rng::new(seed ^ 0xB5);
+    // advance virtual time; in busy mode the busy node starts a lookup of a random target every 150 ms (nobody waits for it)
+    let mut run_for = move |net: &mut Net, ms: u64| match busy_node {
+        Some(bn) if net.sim.nodes[bn].alive => {
+            let end = net.sim.now_ns() + ms * MS;
+            while net.sim.now_ns() < end {
+                let kind = if busy_rng.chance(1, 4) { GetKind::FindNode } else { GetKind::Immutable };
+                let _ = net.sim.call_get(bn, kind, busy_rng.id(), "busy");
+                let slice = (end - net.sim.now_ns()).min(150 * MS);
+                net.sim.run_for(slice / MS + if slice % MS > 0 { 1 } else { 0 });
+            }
+        }
+        _ => net.sim.run_for(ms),
+    };
     let start = net.sim.now_ns();
     // incarnations: sim node index = incarnation id; id (hex) -> incarnation
     let mut id_of: HashMap<String, usize> = HashMap::new();
@@ -65,9 +89,10 @@ pub fn timeline(b: u64, servers: usize, hours: u64, churn: u64, seed: u64, out: 
         for (t, what) in evs {
             let now = net.sim.now_ns();
             if t > now {
-                net.sim.run_for((t - now) / MS);
+                run_for(&mut net, (t - now) / MS);
             }
-            let alive: Vec<usize> = (1..net.sim.nodes.len()).filter(|&n| net.sim.nodes[n].alive && net.servers.contains(&n)).collect();
+            // the busy node itself never crashes (it is the observer of interest)
+            let alive: Vec<usize> = (1..net.sim.nodes.len()).filter(|&n| net.sim.nodes[n].alive && net.servers.contains(&n) && Some(n) != busy_node).collect();
             match what {
                 9 => {
                     // everybody but the most recently started live server goes down (the adaptive client too: by now it is a
@@ -124,7 +149,7 @@ pub fn timeline(b: u64, servers: usize, hours: u64, churn: u64, seed: u64, out: 
         }
         let now = net.sim.now_ns();
         if target_ns > now {
-            net.sim.run_for((target_ns - now) / MS);
+            run_for(&mut net, (target_ns - now) / MS);
         }
         refresh_ids(&mut net, &mut id_of, &mut own_id);
         // who answered whom since the last boundary; refresh lookups started
@@ -267,13 +292,21 @@ pub fn run(args: &Args) -> i32 {
     let mut b = 0u64;
     for (servers, hours, churn) in plans {
         if only.is_none() || only == Some(b) {
-            lines += timeline(b, servers, hours, churn, seed ^ (b * 104729), &mut out, false);
+            lines += timeline(b, servers, hours, churn, seed ^ (b * 104729), &mut out, "");
         }
         b += 1;
     }
     for (servers, hours, churn) in blackouts {
         if only.is_none() || only == Some(b) {
-            lines += timeline(b, servers, hours, churn, seed ^ (b * 104729), &mut out, true);
+            lines += timeline(b, servers, hours, churn, seed ^ (b * 104729), &mut out, "blackout");
+        }
+        b += 1;
+    }
+    // busy observers: overlapping lookups on one server throughout, peers crashing around it
+    let busies: Vec<(usize, u64, u64)> = if thorough { vec![(5, 2, 1), (8, 2, 2), (12, 1, 1), (20, 1, 1)] } else { vec![(6, 1, 1), (10, 1, 2)] };
+    for (servers, hours, churn) in busies {
+        if only.is_none() || only == Some(b) {
+            lines += timeline(b, servers, hours, churn, seed ^ (b * 104729), &mut out, "busy");
         }
         b += 1;
     }
